@@ -829,3 +829,45 @@ package statedb
 //@   maypanic
 //@   flag assumepre=no-root-mutex-held-by-the-caller
 //@   mustcall NewSortableMutex@1 when @write-lock-created-with-the-table err == nil
+
+// Initialized / PendingInitializers (C19): both answer from the table entry of the transaction's
+// own snapshot (getTableEntry), for read and write transactions alike - never from the latest
+// committed root - and are functions of that entry only.
+//@ spec entryOf(txn ReadTxn, t ptr) *tableEntry
+//@ func ReadTxn.getTableEntry
+//@   trusted
+//@   pure
+//@   ensures result == entryOf(recv, unboxptr(meta))
+//@ func (*genTable).Initialized returns (init, watch)
+//@   property C19 C02
+//@   flag nosafety
+//@   mustcall getTableEntry@1 when @answers-from-the-snapshots-entry true
+//@   ensures @function-of-the-entry init <==> (entryOf(txn, t).init == nil || len(entryOf(txn, t).init.pending) == 0)
+//@   ensures @pending-channel !init ==> watch == entryOf(txn, t).init.watch
+//@ func (*genTable).PendingInitializers
+//@   property C19 C02
+//@   flag nosafety
+//@   mustcall getTableEntry@1 when @answers-from-the-snapshots-entry true
+//@   ensures @function-of-the-entry (entryOf(txn, t).init == nil ==> result == nil) && (entryOf(txn, t).init != nil ==> result == entryOf(txn, t).init.pending)
+
+// Lower-bound queries on a non-unique index (C18, C04): the tree is positioned with the ESCAPED
+// secondary key and the filtering iterator compares against that same escaped key.
+//@ spec lbKeyId(tag mathint) mathint
+//@ func Ops.LowerBound
+//@   trusted
+//@   ensures onlyFresh()
+//@ func newNonUniqueLowerBoundPartIterator
+//@   trusted
+//@   pure
+//@ func partLowerBound
+//@   property C18 C04
+//@   flag nosafety
+//@   aftercall Ops.LowerBound@1 assume lbKeyId(1) == keyId($1)
+//@   atcall newNonUniqueLowerBoundPartIterator@1 requires @filter-uses-the-key-the-tree-was-positioned-with keyId($1) == lbKeyId(1)
+//@   aftercall encodeNonUniqueBytes@1 assume lbKeyId(2) == keyId(result)
+//@   atcall Ops.LowerBound@1 requires @positioned-with-the-escaped-key !unique ==> keyId($1) == lbKeyId(2)
+//@ func (*partIndex).lowerBoundNext
+//@   property C18 C04
+//@   flag nosafety
+//@   aftercall (*Tree).LowerBound@1 assume lbKeyId(1) == keyId($1)
+//@   atcall newNonUniqueLowerBoundPartIterator@1 requires @filter-uses-the-key-the-tree-was-positioned-with keyId($1) == lbKeyId(1)
